@@ -822,27 +822,51 @@ def addressing (mode : AMode) : Ex (U16 × Nat × Bool) := do
     modify fun c => { c with stepPC := 0 }
     pure (0, 0, false)
 
-/-- `Step()` with the interrupt latch idle; the Go result pair is (Cycles, Stopped) of the new state -/
-def step (v : Variant) : Ex Unit := do
+/-- what `Step` uses of an opcode-table row -/
+structure RowSem where
+  proc : Proc
+  mode : AMode
+  size : Nat
+  cycles : Nat
+  deriving DecidableEq, Repr
+
+def rowSem (r : InsRow) : RowSem := ⟨procOfName r.proc, modeOfName r.modeName, r.size, r.cycles⟩
+
+/-- the per-opcode cycle adjustments: (decCycles_flagM, decCycles_flagX, incCycles_regDL_not00, incCycles_PageCross) -/
+structure CycAdj where
+  decM : Nat
+  decX : Nat
+  incDL : Nat
+  incPage : Nat
+  deriving DecidableEq, Repr
+
+def semOf (v : Variant) (opb : U8) : RowSem := rowSem ((tableOf v).getD opb.toNat default)
+def adjOf (v : Variant) (opb : U8) : CycAdj :=
+  let t := cycTables v
+  ⟨t.1.getD opb.toNat 0, t.2.1.getD opb.toNat 0, t.2.2.1.getD opb.toNat 0, t.2.2.2.getD opb.toNat 0⟩
+
+/-- `Step()` with the interrupt latch idle, over abstract decode tables -/
+def stepWith (sem : U8 → RowSem) (adj : U8 → CycAdj) : Ex Unit := do
   modify fun c => { c with PPC := c.PC, PRK := c.RK }
   let c ← get
   let opb ← nRead c.RK c.PC
-  let op := opb.toNat
-  let row := (tableOf v).getD op default
-  let mode := modeOfName row.modeName
+  let row := sem opb
+  let t := adj opb
   modify fun c => { c with stepPC := BitVec.ofNat 16 row.size, Cycles := BitVec.ofNat 8 row.cycles }
-  let (addr, ea, pageCrossed) ← addressing mode
-  let t := cycTables v
+  let (addr, ea, pageCrossed) ← addressing row.mode
   modify fun c =>
-    let c := if c.M then { c with Cycles := c.Cycles - BitVec.ofNat 8 (t.1.getD op 0) } else c
+    let c := if c.M then { c with Cycles := c.Cycles - BitVec.ofNat 8 t.decM } else c
     let c := if c.X then
-        let c := { c with Cycles := c.Cycles - BitVec.ofNat 8 (t.2.1.getD op 0) }
-        if pageCrossed then { c with Cycles := c.Cycles + BitVec.ofNat 8 (t.2.2.2.getD op 0) } else c
+        let c := { c with Cycles := c.Cycles - BitVec.ofNat 8 t.decX }
+        if pageCrossed then { c with Cycles := c.Cycles + BitVec.ofNat 8 t.incPage } else c
       else c
-    let c := if c.RD &&& 0x00FF != 0 then { c with Cycles := c.Cycles + BitVec.ofNat 8 (t.2.2.1.getD op 0) } else c
-    { c with EA := ea % 16777216, Addr := addr, Mode := mode }
-  runProc row.proc
+    let c := if c.RD &&& 0x00FF != 0 then { c with Cycles := c.Cycles + BitVec.ofNat 8 t.incDL } else c
+    { c with EA := ea % 16777216, Addr := addr, Mode := row.mode }
+  runP row.proc
   modify fun c => { c with AllCycles := c.AllCycles + c.Cycles.setWidth 64, PC := c.PC + c.stepPC }
+
+/-- `Step()` of one interpreter; the Go result pair is (Cycles, Stopped) of the new state -/
+def step (v : Variant) : Ex Unit := stepWith (semOf v) (adjOf v)
 
 def run (v : Variant) : Nat → Ex Unit
   | 0 => pure ()
